@@ -91,8 +91,6 @@ func TestProbe(t *testing.T) {
 		q(1, "*", "index=App")
 		q(0, "*", "index=\"a+b\"")
 		q(1, "zz", "index=app")
-		h("es.search", 1, map[string]string{"uv.indexName": "app*"}, []byte(`{"size":100,"query":{"match_all":{}}}`))
-		h("es.search", 1, map[string]string{"uv.indexName": "app"}, []byte(`{"size":100,"query":{"bool":{"filter":[{"range":{"timestamp":{"gte":1699999999999,"lte":1700000100000}}}]}}}`))
 		q(1, "app*", "*")
 		q(1, "APP", "*")
 		q(0, "a+b", "*")
